@@ -942,6 +942,74 @@ fn mbp_case(s: &mut Session, sc: &MbP) {
     s.case("mb.points", req, resp);
 }
 
+// ------------------------------------------------------------------------------------------
+// device.build
+// ------------------------------------------------------------------------------------------
+
+/// `Device::new` on delta lists of 1..=17 entries drawn from the format boundaries (−2..=1 | 2, −3 |
+/// −8, 7 | 8, −9 | −128, 127): written with write-fonts, read back with read-fonts `Device::iter`.
+pub fn run_device(cfg: &Config, s: &mut Session, rng: &mut Rng) {
+    use read_fonts::{FontData, FontRead};
+    const B: [i8; 12] = [-2, -1, 0, 1, 2, -3, -8, 7, 8, -9, -128, 127];
+    let n_cases = if cfg.thorough() { 12_000 } else { 1_500 };
+    for case in 0..n_cases {
+        let n = 1 + (case % 17) as usize;
+        // which boundary values may appear: a prefix of B (so every format boundary is approached
+        // from below and from above), now and then anything
+        let upto = *rng.pick(&[4usize, 4, 5, 6, 6, 8, 8, 9, 10, 10, 12]);
+        let mut vals: Vec<i8> = (0..n).map(|_| if rng.chance(1, 40) { rng.next() as i8 } else { B[rng.below(upto as u64) as usize] }).collect();
+        // the largest allowed value is present (otherwise a smaller format would be chosen)
+        let at = rng.below(n as u64) as usize;
+        vals[at] = B[upto - 1 - rng.below(2.min(upto as u64)) as usize];
+        let start = *rng.pick(&[0u16, 1, 8, 9, 12, 255, 65535 - 17]);
+        let req = format!("device.build {start} | {}", join(&vals.iter().map(|v| *v as i32 + 128).collect::<Vec<_>>()));
+        let input = || format!("Device::new({start}, {}, {vals:?})", start + n as u16 - 1);
+        let built = catch(|| wl::Device::new(start, start + n as u16 - 1, &vals));
+        let resp = match built {
+            Err(e) => {
+                s.oracle("device-build-does-not-panic", false, input, || e.clone());
+                "trap".to_string()
+            }
+            Ok(d) => {
+                let bits = match d.delta_format as u16 {
+                    1 => 2,
+                    2 => 4,
+                    _ => 8,
+                };
+                s.count(&format!("device.build:format{}:{}", d.delta_format as u16, if n * bits % 16 == 0 { "full-words" } else { "partial-last-word" }));
+                let want_fmt = if vals.iter().all(|v| (-2..=1).contains(v)) {
+                    1
+                } else if vals.iter().all(|v| (-8..=7).contains(v)) {
+                    2
+                } else {
+                    3
+                };
+                s.oracle("device-format-is-the-smallest-that-fits", d.delta_format as u16 == want_fmt, input, || {
+                    format!("format {} chosen, {want_fmt} is the smallest that represents all deltas", d.delta_format as u16)
+                });
+                let decoded: Result<Vec<i8>, String> = write_fonts::dump_table(&d).map_err(|e| format!("{e}")).and_then(|bytes| {
+                    read_fonts::tables::layout::Device::read(FontData::new(&bytes)).map(|t| t.iter().collect()).map_err(|e| format!("{e:?}"))
+                });
+                s.oracle("device-decodes-to-written-deltas", decoded.as_ref().ok() == Some(&vals), input, || {
+                    format!("format {} words {:04x?} decode to {decoded:?}", d.delta_format as u16, d.delta_value)
+                });
+                format!(
+                    "{} {} {} | {} | {}",
+                    d.start_size,
+                    d.end_size,
+                    d.delta_format as u16,
+                    join(&d.delta_value),
+                    match &decoded {
+                        Ok(v) => join(&v.iter().map(|v| *v as i32 + 128).collect::<Vec<_>>()),
+                        Err(_) => "unreadable".into(),
+                    }
+                )
+            }
+        };
+        s.case("device.build", req, resp);
+    }
+}
+
 pub fn run(cfg: &Config, s: &mut Session, rng: &mut Rng) {
     let t = cfg.thorough();
     for _ in 0..(if t { 160 } else { 26 }) {
@@ -954,4 +1022,5 @@ pub fn run(cfg: &Config, s: &mut Session, rng: &mut Rng) {
         let sc = gen_mbp(rng, s, t);
         mbp_case(s, &sc);
     }
+    run_device(cfg, s, rng);
 }
